@@ -6,21 +6,33 @@
    select, transform/expand, and the array-building operations) as of the repository
    commits  fix: join(match_coord_values=True)..., fix: stack/concatenate..., fix: transform...,
    fix: node names hash an identity of the callable..., fix: node names also hash the number of
-   outputs..., fix: Cascade.from_actions merges nodes by name...
-   Proofs: Fluent/NamesProofs.v.   Checkers for the correspondence: Fluent/NamesCheck.v.
+   outputs..., fix: Cascade.from_actions merges nodes by name..., fix: callable_id hashes the
+   repr of every callable that is not a Python function...
+   Fluent/Callable.v (callable_id: what of a callable enters the digest that stands for it in
+   the node name -- module, qualified name, code with nested code constants, defaults, closure
+   contents, repr of the receiver of a bound method / of a callable that is not a function).
+   Proofs: Fluent/NamesProofs.v, Fluent/CallableProofs.v.
+   Checkers for the correspondence: Fluent/NamesCheck.v, Fluent/CallableCheck.v.
 
    Hypotheses, in words:
      H injective, hex output : custom_hash = SHA-256 hexdigest is treated as collision free;
-     callable = its callable_id digest (64 characters): two Python callables with the same
-                 digest are the same callable (module, qualified name, code, defaults, closure);
+     callable  : in the theorems on names a callable is its callable_id digest (64 characters);
+                 C14_callable_id_identifies_callable / C14_same_name_same_callable open the
+                 digest: equal digests only for equal module, qualified name, code, defaults,
+                 closure contents and receiver / repr;
+     R injective : repr of the list `parts` (str, None, tuples, lists, dicts of those) is
+                 CPython's and treated as injective; reprs of objects are taken as they are
+                 (the address of an object without __repr__ is its identity while it lives);
+     wf_callable, dig64 : a repr is not itself 64 hex digits nor one of the markers
+                 "<recursive>", "<empty>"; function digests are 64 characters;
      wf_node   : strings (callable names, keyword names, str arguments) contain no quote and
                  no backslash (their repr is the plain quoted form), other static values print
                  as one token (ints, floats, bools, None ...: no quote , ] }), output names
                  contain no '.' and ':' (they are str(int)).
    No bound on the number of nodes, inputs, arguments or operations. *)
 From Coq Require Import List String Ascii Bool Arith.
-From EKW Require Import Fluent.Names Fluent.NamesProofs.
-From EKW Require Fluent.NamesCheck.
+From EKW Require Import Fluent.Names Fluent.NamesProofs Fluent.Callable Fluent.CallableProofs.
+From EKW Require Fluent.NamesCheck Fluent.CallableCheck.
 Import ListNotations.
 Open Scope string_scope.
 Open Scope list_scope.
@@ -66,6 +78,29 @@ Theorem C14_operands_intact :
   forall i a, nth_error h i = Some a -> nth_error h' i = Some a.
 Proof. exact operands_intact. Qed.
 
+(* the digest that stands for the callable inside a node name identifies the callable:
+   functions by module, qualified name, code (constants and nested code included), defaults,
+   keyword defaults and closure contents; methods also by their receiver; callable objects,
+   wrappers, builtins and classes by their repr.  No bound on the nesting. *)
+Theorem C14_callable_id_identifies_callable :
+  forall (H : string -> string) (R : pv -> string),
+  (forall a b, H a = H b -> a = b) -> (forall a, allc hexchar (H a) = true) -> (forall a b, R a = R b -> a = b) ->
+  forall a b : dv, wf_callable a = true -> wf_callable b = true -> dig64 H R a = true -> dig64 H R b = true ->
+  cid H R a = cid H R b -> a = b.
+Proof. exact callable_id_injective. Qed.
+
+(* two nodes with the same name run the same callable: same function AND same receiver *)
+Theorem C14_same_name_same_callable :
+  forall (H : string -> string) (R : pv -> string),
+  (forall a b, H a = H b -> a = b) -> (forall a, allc hexchar (H a) = true) -> (forall a b, R a = R b -> a = b) ->
+  forall (cname : string -> string) (ca cb : dv) ovr args kw ins nout ovr' args' kw' ins' nout',
+  wf_callable ca = true -> wf_callable cb = true -> dig64 H R ca = true -> dig64 H R cb = true ->
+  wf_node cname (FN ovr (cid H R ca) args kw ins nout) = true ->
+  wf_node cname (FN ovr' (cid H R cb) args' kw' ins' nout') = true ->
+  nname H cname (FN ovr (cid H R ca) args kw ins nout) = nname H cname (FN ovr' (cid H R cb) args' kw' ins' nout') ->
+  ca = cb.
+Proof. exact same_name_same_callable. Qed.
+
 (* ------------------------------------------------------------------ non-vacuity *)
 Definition ex_cname (f : string) : string :=
   if String.eqb f "00000000000000000000000000000000000000000000000000000000000000f1" then "f" else "<lambda>".
@@ -91,6 +126,61 @@ Proof.
   split; [exact hexenc_inj|]. split; [exact hexenc_hex|].
   repeat split; try (vm_compute; reflexivity); try discriminate.
 Qed.
+
+(* callables: one method `apply` (code "97") bound to two objects that print S(1) and S(2);
+   a closure over 1 and over 2 with defaults, keyword defaults, an empty cell and a reference to
+   itself; a function with nested code and a closure over another function; a numpy ufunc *)
+Definition ex_code := DCode "97" [] [] [].
+Definition ex_meth (self : string) := DFunc None None ex_code [] [] [] [] self.
+Definition ex_clo (k : string) :=
+  DFunc (Some "m") (Some "mk.<locals>.f") (DCode "9701" ["k"] ["x"] [DRepr "None"]) [DRepr "0"] ["p"] [DRepr k]
+        [DRepr k; DEmpty; DRec] "None".
+Definition ex_deep :=
+  DFunc (Some "m") (Some "g") (DCode "64" [] [] [DCode "65" [] [] [DRepr "1"]]) [] [] [] [DRepr "<m.S object at 0x7f01>"] "None".
+Definition ex_ufunc (r : string) := DOther None None r.
+
+(* the hypotheses are met by concrete functions (hexenc, ser); descriptions of every shape are
+   in the domain; different receivers, closure contents, reprs give different digests, and
+   the digests are 64 characters where a node name needs that *)
+Example C14_callable_id_identifies_callable_nonvacuous :
+  (forall a b, NamesCheck.hexenc a = NamesCheck.hexenc b -> a = b) /\
+  (forall a, allc hexchar (NamesCheck.hexenc a) = true) /\
+  (forall a b, CallableCheck.ser a = CallableCheck.ser b -> a = b) /\
+  wf_callable (ex_meth "S(1)") = true /\ dig64 NamesCheck.hexenc CallableCheck.ser (ex_meth "S(1)") = true /\
+  dig64 NamesCheck.hexenc CallableCheck.ser (ex_meth "S(2)") = true /\
+  cid NamesCheck.hexenc CallableCheck.ser (ex_meth "S(1)") <> cid NamesCheck.hexenc CallableCheck.ser (ex_meth "S(2)") /\
+  wf_callable (ex_clo "1") = true /\ wf_callable ex_deep = true /\
+  wf_callable (ex_ufunc "<ufunc 'add'>") = true /\
+  String.length (cid NamesCheck.hexenc CallableCheck.ser (ex_ufunc "<ufunc 'add'>")) = 64 /\
+  cid NamesCheck.hexenc CallableCheck.ser (ex_clo "1") <> cid NamesCheck.hexenc CallableCheck.ser (ex_clo "2").
+Proof.
+  split; [exact hexenc_inj|]. split; [exact hexenc_hex|]. split; [exact ser_inj|].
+  repeat split; try (vm_compute; reflexivity); vm_compute; discriminate.
+Qed.
+
+Example C14_same_name_same_callable_nonvacuous :
+  let H := NamesCheck.hexenc in let R := CallableCheck.ser in
+  let a := FN None (cid H R (ex_meth "S(1)")) [VAtom "3"] [] [(ex_src, Some "1")] "1" in
+  let b := FN None (cid H R (ex_meth "S(2)")) [VAtom "3"] [] [(ex_src, Some "1")] "1" in
+  wf_node (fun _ => "apply") a = true /\ wf_node (fun _ => "apply") b = true /\
+  comp_of a <> comp_of b /\ nname H (fun _ => "apply") a <> nname H (fun _ => "apply") b.
+Proof. repeat split; try (vm_compute; reflexivity); vm_compute; discriminate. Qed.
+
+(* variants of the code.  Before the fix: commit a callable that is not a function, has a
+   __qualname__ and no __self__ (functools.lru_cache wrapper, update_wrapper'ed object)
+   contributed its names only: the wrappers of two different closures shared a digest.  A
+   callable_id that prints the receiver of a method by its class only gives two receivers
+   one digest: the receiver's identity would no longer enter the node name. *)
+Example C14_before_fix_wrappers_shared_a_digest :
+  forall H R, CallableCheck.cid_other_legacy H R (Some "m") (Some "mk.<locals>.f") false "<functools._lru_cache_wrapper object at 0x7f01>"
+            = CallableCheck.cid_other_legacy H R (Some "m") (Some "mk.<locals>.f") false "<functools._lru_cache_wrapper object at 0x7f02>".
+Proof. reflexivity. Qed.
+
+Example C14_receiver_by_class_only_collides :
+  forall H R, ex_meth "<m.Scaler object at 0x7f01>" <> ex_meth "<m.Scaler object at 0x7f02>" /\
+  CallableCheck.cid_method_by_class H R (fun _ => "<m.Scaler object>") (ex_meth "<m.Scaler object at 0x7f01>")
+  = CallableCheck.cid_method_by_class H R (fun _ => "<m.Scaler object>") (ex_meth "<m.Scaler object at 0x7f02>").
+Proof. intros H R. split; [discriminate | reflexivity]. Qed.
 
 (* same computation, same labels, built differently *)
 Example C14_same_program_same_names_nonvacuous :
@@ -147,3 +237,5 @@ Print Assumptions C14_same_program_same_names.
 Print Assumptions C14_lowering_by_name_unambiguous.
 Print Assumptions C14_same_name_same_outputs.
 Print Assumptions C14_operands_intact.
+Print Assumptions C14_callable_id_identifies_callable.
+Print Assumptions C14_same_name_same_callable.
